@@ -50,6 +50,7 @@ MCS_WRITE = dict(
         (None, "one-send-data", "r is Ok && ser(message.mv()).len() <= 0x7fff ==> final(self).written() =~= old(self).written() + mcs_frame(old(self).uid()->Some_0, old(self).chans()[channel_name@], ser(message.mv()))"),
         (None, "prefix", "is_prefix(old(self).written(), final(self).written())"),
         (None, "frame", "final(self).rest() == old(self).rest() && final(self).same_session(old(self))"),
+        (None, "error-kind", "!automata_err(r)"),
     ])
 MCS_READ = dict(
     requires=["old(self).connected()"],
